@@ -330,7 +330,9 @@ class PiecewiseConstantBirthDeath(Distribution):
 
         y = times[..., -1:] - tip_heights
 
-        if serially_sampled:
+        # tips at the present are sampled through psi when there is no
+        # rho-sampling at the present
+        if serially_sampled or torch.any(rho[..., -1] == 0.0):
             indices_y = torch.clamp(
                 torch.searchsorted(times, y, right=False) - 1, max=m - 1
             )
